@@ -1,6 +1,7 @@
 /-
   Obligation of C11 on the regenerated facts: every write site of the non-test sources (map / slice
-  element assignment, `delete`, `copy`, `maps.Copy`, `sort.*`, assignment through a pointer, field
+  element assignment, `delete`, `copy`, `maps.Copy`, `sort.*`, `append` (which writes into the spare
+  capacity of its first argument and returns a slice sharing its array), assignment through a pointer, field
   assignment on something that is not an engine struct) either targets a value allocated in the same
   function (not listed at all) or is one of the sites below, each with the reason why its target is
   not the caller's document.  A new in-place write makes the list differ and the obligation fail.
@@ -17,11 +18,13 @@ def allowedWriteSites : List String :=
   , "BuildGroup:index:query.groupDefinition"        -- the query's own group definition (made by New/Prepare)
   , "BuildJoin:field:joinExpr.Condition.On"         -- the parser's AST (USING → ON), not the document
   , "Copy:copy:out", "Copy:index:out"               -- `out` is a map made by the only callers (JoinMatchFunc / HashJoinMatchFunc)
+  , "ExecGroupBy:append:ref.items"                  -- a group record allocated in the same loop (`items: []any{item}`)
   , "ExecGroupBy:field:ref.items"                   -- a group record allocated in the same loop
   , "ExecReader:index:cache"                        -- the selector cache (C13)
   , "ExistExpr:field:q.from"                        -- `q` is a freshly prepared query; `from` is a new slice of merged copies
   , "FunExpr:index:query.singletonExecutions"       -- the query's own memo
   , "RegisterExternalFunction:index:functions", "RegisterFunction:index:functions"
+  , "RegisterImmediateFunction:append:immediateFunctions"
   , "RegisterTopLevelFunction:index:topLevelFunctions"   -- registries (C13)
   , "SetVarFunc:index:query.options.vars"           -- the caller's VARIABLE map, which C20 requires to be written
   , "Sort:sort:slice"                               -- sorts the slice ExecSelect built (`copy := make(...)`), never `from`
